@@ -11,7 +11,7 @@ Seeds == {[k |-> "route", n |-> r.name] : r \in Routes} \cup {[k |-> "pat", n |-
 
 CasesOf(s) ==
     IF s.k = "route" THEN RouteCases(CHOOSE r \in Routes : r.name = s.n, LEVEL)
-    ELSE AuthCases(s.n)
+    ELSE PatCases(s.n, LEVEL)
 
 Init == stage = 0 /\ seed \in Seeds /\ req = Canon("id", "GET") /\ obs = [status |-> 0, ops |-> <<>>, docs |-> 0]
 Next == /\ stage = 0 /\ stage' = 1 /\ UNCHANGED seed
@@ -21,6 +21,8 @@ Spec == Init /\ [][Next]_<<seed, req, obs, stage>>
 
 DesignHolds    == stage = 1 /\ ~Deviates(req) => Good(req, obs)
 DeviationsFail == stage = 1 /\ Deviates(req) => ~Good(req, obs) /\ Broken(req, obs) = {"FailClosed"}
+\* the answers do not depend on the configuration variant
+ConfigIndependent == stage = 1 => Expected(req) = Expected([req EXCEPT !.tr = "plain"])
 SelfConforms   == stage = 1 => Conforms(req, obs)
 \* the client sends what the server-side route expects
 \* (except where "unspecified" exists only in the HTTP form: raw-leaves left out with cid-version > 0)
